@@ -62,6 +62,10 @@ fn views_agree(p: &TheoreticalIsotopicPattern) -> bool {
     ok &= c.origin.to_bits() == p.origin.to_bits() && c.peaks.len() == n;
     let v: Vec<Peak> = c.into_iter().collect();
     ok &= v.len() == n && v.iter().zip(p.peaks.iter()).all(|(a, b)| same(a, b));
+    // `iter_mut` walks the same peaks; `Peak`'s ordering is the ordering of m/z
+    let mut c2 = p.clone();
+    ok &= c2.iter_mut().count() == n && c2.iter_mut().zip(p.peaks.iter()).all(|(a, b)| same(a, b));
+    ok &= p.peaks.windows(2).all(|w| w[0].partial_cmp(&w[1]) == w[0].mz.partial_cmp(&w[1].mz));
     // `clone_from` into a pattern that already holds something must leave exactly the source
     let mut d = TheoreticalIsotopicPattern::new(vec![Peak { mz: 1.0, intensity: 1.0 }, Peak { mz: 2.0, intensity: 3.0 }], 7.0);
     d.clone_from(p);
